@@ -488,6 +488,42 @@ func (g *wgen) buildChain(n int, tcSec int64, args []KV) *chain {
 	return c
 }
 
+// buildReuseChain: a conforming chain in which ONE sealed delegation serves two links
+// (S->A root, A->B, B->A, A->B again; or a self-delegation of the subject taken twice).
+func (g *wgen) buildReuseChain(tcSec int64, args []KV) *chain {
+	r := g.r
+	c := &chain{subject: r.Intn(len(g.cast))}
+	cmd := "/"
+	if r.Chance(0.5) {
+		cmd = extendCmd(r, cmd)
+	}
+	mk := func(iss, aud int, pol int) DlgSpec {
+		d := DlgSpec{Label: g.newDlgLabel(), Iss: iss, Aud: aud, Sub: c.subject, Cmd: cmd, NonceLen: 12}
+		d.Pol = genPolicy(r, args, pol)
+		g.bounds(&d.Nbf, &d.Exp, tcSec)
+		return d
+	}
+	if r.Chance(0.4) {
+		z := mk(c.subject, c.subject, r.Range(0, 2))
+		c.dlgs = []DlgSpec{z}
+		c.holders = []int{c.subject, c.subject, c.subject}
+		c.inv = InvSpec{Label: g.newInvLabel(), Iss: c.subject, Sub: c.subject, Aud: -1, Cmd: cmd, Args: args, Prf: []string{z.Label, z.Label}}
+		return c
+	}
+	a, b := g.other(c.subject), g.other(c.subject)
+	root := mk(c.subject, a, 0)
+	ab := mk(a, b, r.Range(0, 2))
+	ba := mk(b, a, r.Range(0, 1))
+	c.dlgs = []DlgSpec{root, ab, ba}
+	c.holders = []int{c.subject, a, b, a, b}
+	icmd := cmd
+	if r.Chance(0.5) {
+		icmd = extendCmd(r, cmd)
+	}
+	c.inv = InvSpec{Label: g.newInvLabel(), Iss: b, Sub: c.subject, Aud: -1, Cmd: icmd, Args: args, Prf: []string{ab.Label, ba.Label, ab.Label, root.Label}}
+	return c
+}
+
 // bounds draws optional bounds that strictly contain tcSec.
 func (g *wgen) bounds(nbf, exp **int64, tcSec int64) {
 	r := g.r
@@ -572,6 +608,9 @@ func genWorld(r *Rand, cfg GenCfg) Plan {
 	nLinks := []int{1, 1, 2, 2, 3, 3, 4, 5, 6, 8, 0}[r.Intn(11)]
 	args := genArgs(r)
 	c := g.buildChain(nLinks, tcSec, args)
+	if r.Chance(0.05) {
+		c = g.buildReuseChain(tcSec, args)
+	}
 
 	// optional unrelated chain
 	var foreign *chain
